@@ -86,6 +86,25 @@ def run():
     for key in ('#', '#ee', '#e1', '##', 'e'):
         for val in ('["x"]', 'null'):
             cases.append((('{"#e":["v"],"%s":%s,"limit":3}' % (key, val)).encode(), 'accept', {'#e': ['v'], 'limit': 3}))
+    # tag values of exactly 64 bytes (the length of a hex id / key, for which #e and #p values may take a shortcut) and around it,
+    # made of characters that need escaping, for e / p and two other letters
+    for _ in range(40 if Q else 400):
+        l = rng.choice(['e', 'p', 'e', 'p', 'E', 'a', 't'])
+        n = rng.choice([64, 64, 64, 63, 65, 32, 128])
+        special = rng.choice(['"', '\\', '\n', '\x00', '\x1f', '\u00e9', '\u20ac', '\t', '/'])
+        body = []
+        size = 0
+        while size < n:
+            ch = special if rng.random() < 0.2 else rng.choice('0123456789abcdef')
+            if size + len(ch.encode('utf8')) > n:
+                ch = '0'
+            body.append(ch)
+            size += len(ch.encode('utf8'))
+        val = ''.join(body)
+        f = {'#' + l: [val] + ([rng.choice(['x', val])] if rng.random() < 0.4 else [])}
+        if rng.random() < 0.5:
+            f['kinds'] = [1]
+        cases.append((jsongen.render_filter(rng, f, ws=False), 'accept', f))
     # integers
     for name, vals in (('limit', [0, 2 ** 32 - 1, 2 ** 32, 2 ** 32 + 5, 2 ** 64 - 1, 2 ** 64, 10 ** 30]),
                        ('since', [0, 2 ** 64 - 1, 2 ** 64, 2 ** 64 + 7, 10 ** 30]), ('until', [0, 2 ** 64 - 1, 2 ** 64, 10 ** 25])):
